@@ -32,7 +32,8 @@ impl Prop for C06 {
             disjoint_types: rng.chance(1, 2),
             max_transitions: 4,
             inputs: (1, 2),
-            input_len: (0, 40),
+            input_len: gen_input_len(rng, 40),
+            allow_empty_mode: true,
             ..Knobs::default()
         };
         let mut gw = gen::gen_world(rng, &k);
@@ -56,9 +57,9 @@ impl Prop for C06 {
             // make it reachable: a transition from the source mode on one of its token types
             if let Some(t) = m.patterns.first().map(|p| p.token_type) {
                 let tr = &mut gw.world.configs[0][src].transitions;
-                if !tr.iter().any(|x| x.0 == t) {
+                if !tr.iter().any(|x| gen::same_type(x.0, t)) {
                     tr.push((t, n));
-                    tr.sort();
+                    tr.sort_by_key(|x| (x.0 as u32, x.1));
                 }
             }
             gw.world.configs[0].push(m);
@@ -74,7 +75,7 @@ impl Prop for C06 {
         gw.world
     }
     fn new_gen<'w>(&self, world: &'w World, rng: &mut Rng) -> Box<dyn Gen + 'w> {
-        Box::new(Gen06 { m: GenModel::new(world, 1, 2), len: rng.range(8, 70) })
+        Box::new(Gen06 { m: GenModel::new(world, 1, 2), len: gen_history_len(rng, 8, 70) })
     }
     fn new_exec<'w>(&self, world: &'w World) -> Box<dyn Exec + 'w> {
         Box::new(Exec06 { world, scanners: vec![], iters: vec![] })
@@ -272,7 +273,7 @@ impl<'w> Exec for Exec06<'w> {
                                 let mut v = None;
                                 if let Some(t) = g {
                                     // (c) the type belongs to the configured patterns of the model's mode
-                                    if !cfg[mode].patterns.iter().any(|p| p.token_type == t.0) {
+                                    if !cfg[mode].patterns.iter().any(|p| gen::same_type(p.token_type, t.0)) {
                                         v = Some(viol("C06/token/type_not_in_current_mode".into(), idx, format!("a token type of mode {} ({:?})", mode, cfg[mode].patterns.iter().map(|p| p.token_type).collect::<Vec<_>>()), t));
                                     }
                                 }
@@ -317,14 +318,14 @@ impl<'w> Exec for Exec06<'w> {
                                                 if target == mode {
                                                     mark("probe.self_loop_taken");
                                                 }
-                                                if cfg[target].patterns.iter().any(|p| p.token_type == t.0) {
+                                                if cfg[target].patterns.iter().any(|p| gen::same_type(p.token_type, t.0)) {
                                                     mark("probe.transition_on_shared_type");
                                                 }
                                                 st.model_mode = target;
                                             }
                                             None => {
                                                 mark("probe.token_without_transition");
-                                                if cfg[mode].transitions.iter().any(|(tt, _)| *tt > t.0) {
+                                                if cfg[mode].transitions.iter().any(|(tt, _)| (*tt as u32) > (t.0 as u32)) {
                                                     mark("probe.early_exit_branch");
                                                 }
                                             }
